@@ -215,8 +215,8 @@ func (w *world) replayHistory(hi int, h history) {
 			if sl.kind == "session" {
 				err = w.userInvoke(sl.ctx(), "KeepAlive", &emptypb.Empty{}, &emptypb.Empty{})
 			} else {
-				probe = "ImmuService/DatabaseList"
-				err = w.userInvoke(sl.ctx(), "DatabaseList", &emptypb.Empty{}, &schema.DatabaseListResponse{})
+				probe = "ImmuService/ListUsers"
+				err = w.userInvoke(sl.ctx(), "ListUsers", &emptypb.Empty{}, &schema.UserList{})
 			}
 			accepted := err == nil
 			line := g.emit(map[string]interface{}{"event": "Call", "s": n, "kind": sl.kind, "sess": sl.st, "sel": sl.sel, "role": u.role, "cur": u.cur,
@@ -231,6 +231,7 @@ func (w *world) replayHistory(hi int, h history) {
 					multi = "multi-login"
 				}
 				sig := fmt.Sprintf("stale-authentication:%s:%s:%s", sl.kind, sl.st, multi)
+				w.badLines = append(w.badLines, line)
 				w.res.Violate(sig, fmt.Sprintf("user %s (role %s): after %v the %s of slot %d is %s according to the policy but the server still accepts it (%s succeeds)",
 					u.name, u.role, ops, sl.kind, n, sl.st, probe),
 					map[string]interface{}{"line": line, "history": h.Hist[:si+1], "role": u.role, "slot": n, "kind": sl.kind, "state": sl.st, "origin": h.Origin, "epoch": g.events})
